@@ -549,7 +549,14 @@ func (e *SpecEnv) call(x *ast.CallExpr) Val {
 		case "old":
 			return e.with(e.old).eval(x.Args[0])
 		case "implies":
-			return Val{T: smtImp(e.eval(x.Args[0]).T, e.eval(x.Args[1]).T), Ty: boolT}
+			// short-circuit: a constantly false antecedent (called("f") at a site no
+			// call to f can precede) makes the clause hold without looking at the
+			// consequent, which may not be expressible there (ret("f", 0))
+			lhs := e.eval(x.Args[0])
+			if lhs.T == "false" {
+				return Val{T: "true", Ty: boolT}
+			}
+			return Val{T: smtImp(lhs.T, e.eval(x.Args[1]).T), Ty: boolT}
 		case "iff":
 			return Val{T: smtEq(e.eval(x.Args[0]).T, e.eval(x.Args[1]).T), Ty: boolT}
 		case "ite":
